@@ -94,6 +94,8 @@ def length(s):
         callee = TB._plain(s[2])
         if callee.endswith('String::insert') or callee.endswith('String::push') or callee.endswith('Vec::push'):
             return add(length(s[1]), {1: 1})
+        if (callee.endswith('String::insert_str') or callee.endswith('String::push_str')) and s[3] and lit_text(s[3][-1]) is not None:
+            return add(length(s[1]), {1: len(lit_text(s[3][-1]))})
         if re.search(r'Extend.*::extend$|String::extend$', callee) and s[3]:
             it = norm(s[3][0])
             if _callp(it, r'Iterator::take$'):
@@ -109,6 +111,17 @@ def span(s):
         root, a, b = span(sp[2][0])
         k = add(a, lin(sp[2][1]))
         return (root, a, k) if s[2] == '0' else (root, k, b)
+    if _callp(s, r'Index::index$') and len(s[2]) == 2:
+        r = norm(s[2][1])
+        if _is(r, 'adt') and r[2] in ('RangeFull', 'RangeTo', 'RangeFrom', 'Range'):
+            root, a, b = span(s[2][0])
+            if r[2] == 'RangeFull':
+                return (root, a, b)
+            if r[2] == 'RangeTo':
+                return (root, a, add(a, lin(r[3][0])))
+            if r[2] == 'RangeFrom':
+                return (root, add(a, lin(r[3][0])), b)
+            return (root, add(a, lin(r[3][0])), add(a, lin(r[3][1])))
     return (s, {}, length(s))
 
 
@@ -298,7 +311,7 @@ def writer_tape(rep, F, fn, scale_term, rule='NUMERAL-SHAPE'):
 
 
 # ---------------------------------------------------------------- string-building formatters
-STRING_EDIT = re.compile(r'String::(insert|push|push_str|extend)$|Extend.*::extend$|Write::write_fmt$|Write::write_str$')
+STRING_EDIT = re.compile(r'String::(insert|insert_str|push|push_str|extend)$|Extend.*::extend$|Write::write_fmt$|Write::write_str$')
 
 
 def unmut(t):
@@ -367,6 +380,7 @@ def string_tape(rep, F, fn, digits_param, spec_exp, rule='NUMERAL-SHAPE', delta_
         E = None
         digits_term = None
         dfinal = None
+        unknown_edit = None
         deltas = []
         problems = []
         disp = []
@@ -376,7 +390,7 @@ def string_tape(rep, F, fn, digits_param, spec_exp, rule='NUMERAL-SHAPE', delta_
                 deltas.append(TB.T('call', callee, tuple(args)))
             elif re.search(r'Argument.*::new_display$', c) and args:
                 disp.append(args[0])
-            elif c.endswith('String::insert') and len(args) == 3:
+            elif (c.endswith('String::insert') or c.endswith('String::insert_str')) and len(args) == 3:
                 if lit_text(args[2]) == '.':
                     if point_at is not None:
                         problems.append('two decimal points')
@@ -397,6 +411,11 @@ def string_tape(rep, F, fn, digits_param, spec_exp, rule='NUMERAL-SHAPE', delta_
                     E = lin2(ints[-1])
             elif c.endswith('Formatter::pad_integral') and len(args) >= 4:
                 dfinal, digits_term = digits_root(args[3])
+            elif re.search(r'^std::string::String::(?!new$|from_utf8|len$|as_str$|as_bytes$|capacity$|reserve|with_capacity|is_empty$|into_bytes$)\w+$', c) and args and _is(norm(args[0]), 'mutated') is not None and re.search(r'String::(remove|truncate|pop|clear|replace_range|drain|retain|insert_str|push_str|push)$', c):
+                unknown_edit = c
+        if unknown_edit:
+            verdicts.setdefault('other', []).append(('undecided', 'the buffer is edited by %s, which the tape interpretation does not model' % unknown_edit.split('::')[-1]))
+            continue
         if digits_term != TB.T('param', digits_param):
             verdicts.setdefault('other', []).append(('undecided', 'buffer handed to pad_integral is not built from the digit parameter: %s' % TB.show(digits_term)[:60]))
             continue
